@@ -253,6 +253,7 @@ def concrete(a, k, g):
 # ------------------------------------------------------------------ replay and recording
 
 import hashlib
+import time
 import concurrent.futures as cf
 
 MAXLEN = 64          # value ranges above are disjoint per quantity for record indices up to here
@@ -710,6 +711,157 @@ def judge_web(run, cases, workdir, shards, replayed=None):
     return events, raw, counts, mm_hist
 
 
+# ------------------------------------------------------------------ live scenario (expiration task)
+
+LIVE_SECONDS = 66          # one period of the 60-second expiration task certainly elapses
+LIVE_PERIOD = 1.5
+LIVE_STALL = 30.0
+
+
+def beast(msg_hex, k):
+    """un-escaped Beast frame: 0x1a, '2' (7-byte) or '3' (14-byte message), 6-byte counter, signal."""
+    msg = bytes.fromhex(msg_hex)
+    return bytes([0x1A, 0x33 if len(msg) == 14 else 0x32]) + (k * 1000).to_bytes(6, "big") + bytes([0x40]) + msg
+
+
+def live_scenario(workdir):
+    """Feed the real jet1090 (-x 1) for LIVE_SECONDS; returns ("skipped", note) or ("ok", observation).
+    No verdict here: the observation is judged by Trace_Live."""
+    import subprocess, threading, time, signal, shutil
+    from .. import pipeline
+    try:
+        exe = core.build_jet()
+        os.makedirs(workdir, exist_ok=True)
+        home, env = pipeline.prepare_home(workdir)
+        rx = pipeline.Receiver()
+        http_port = pipeline.free_port()
+    except Exception as ex:                                   # environment
+        return "skipped", f"setup failed: {ex}"
+    cmd = [exe, "--verbose", "--serve-port", str(http_port), "-x", "1", f"tcp://127.0.0.1:{rx.port}"]
+    errf = open(os.path.join(workdir, "stderr.txt"), "wb")
+    s0 = int(time.time()) - 1
+    proc = subprocess.Popen(cmd, stdin=subprocess.DEVNULL, stdout=subprocess.PIPE, stderr=errf, env=env, cwd=home)
+    lines, lock = [], threading.Lock()
+
+    def reader():
+        for raw in proc.stdout:
+            with lock:
+                lines.append(raw)
+
+    threading.Thread(target=reader, daemon=True).start()
+    note = None
+    sends = {1: [], 2: [], 3: []}
+    try:
+        t_acc = time.monotonic() + 30
+        while rx.conn is None:
+            try:
+                rx.accept(0.5)
+            except Exception:
+                if proc.poll() is not None or time.monotonic() > t_acc:
+                    return "skipped", "jet1090 did not connect to the loopback Beast server"
+        t0 = time.monotonic()
+        adsb = ["ID", "VG", "ST", "TS", "VI", "OA"]            # aircraft 1: extended squitters
+        modes = ["S4", "S5", "S11", "S0"]                      # aircraft 2: surveillance replies only
+        g = 0
+        while time.monotonic() - t0 < LIVE_SECONDS:
+            g += 1
+            batch = [(1, concrete(1, adsb[g % len(adsb)], g)), (2, concrete(2, modes[g % len(modes)], g))]
+            if time.monotonic() - t0 < 5:
+                batch.append((3, concrete(3, "ID", g)))        # goes silent after 5 s: never judged
+            for a, hx in batch:
+                if not rx.write(pipeline.wire_of(beast(hx, 3 * g + a)), "whole", False):
+                    return "skipped", "jet1090 closed the connection (ended before the scenario was over)"
+                sends[a].append(time.monotonic() - t0)
+            if proc.poll() is not None:
+                return "skipped", "jet1090 ended before the scenario was over"
+            time.sleep(LIVE_PERIOD)
+        fed = time.monotonic() - t0
+        for a in (1, 2):
+            gaps = [y - x for x, y in zip(sends[a], sends[a][1:])]
+            if not gaps or max(gaps) > LIVE_STALL:
+                return "skipped", f"feeder stalled {max(gaps or [0]):.0f} s (machine load): scenario not judged"
+        # observation: /all once the output has been quiet, and the lines printed until then
+        tab, stable, n1 = None, False, 0
+        for _ in range(40):
+            with lock:
+                n1 = len(lines)
+            try:
+                tab = pipeline.http_json(http_port, "/all")
+            except Exception as ex:
+                return "skipped", f"GET /all failed: {ex}"
+            quiet = True
+            for _ in range(3):
+                time.sleep(0.2)
+                with lock:
+                    quiet = quiet and len(lines) == n1
+            if quiet:
+                stable = True
+                break
+        if not stable:
+            return "skipped", "output never became quiet"
+        with lock:
+            out = list(lines[:n1])
+        recs, junk = [], 0
+        for raw in out:
+            try:
+                js = json.loads(raw.decode(errors="replace"))
+                recs.append({"icao": js["icao24"] if isinstance(js.get("icao24"), str) else "none",
+                             "t": int(js["timestamp"] // 1) - s0, "df": str(js.get("df", ""))})
+            except Exception:
+                junk += 1
+        if not recs:
+            return "skipped", "jet1090 printed no record"
+        allv = [{"icao24": str(e.get("icao24", "?")), "count": int(e.get("count", -1)),
+                 "firstseen": int(e.get("firstseen", 0)) - s0, "lastseen": int(e.get("lastseen", 0)) - s0}
+                for e in tab]
+        return "ok", {"e": "live", "recs": recs, "all": allv,
+                      "judged": ["%06x" % ADDR[0], "%06x" % ADDR[1]], "silent": "%06x" % ADDR[2],
+                      "fed_s": int(fed), "frames_sent": {str(a): len(v) for a, v in sends.items()},
+                      "max_gap_ms": int(1000 * max(y - x for a in (1, 2) for x, y in zip(sends[a], sends[a][1:]))),
+                      "junk": junk, "cmd": " ".join(cmd)}
+    except Exception as ex:
+        return "skipped", f"environment: {type(ex).__name__}: {ex}"
+    finally:
+        try:
+            proc.send_signal(signal.SIGTERM)
+            proc.wait(timeout=3)
+        except Exception:
+            proc.kill()
+        rx.close()
+        errf.close()
+        shutil.rmtree(home, ignore_errors=True)
+
+
+def judge_live(run, status, obs):
+    """V for the live scenario; fills coverage; never a verdict when skipped."""
+    if status != "ok":
+        run.cov["live_expiry_scenario"] = {"status": "skipped", "note": obs}
+        core.log("C12 live scenario skipped: " + str(obs))
+        return
+    ev = {k: obs[k] for k in ("e", "recs", "all", "judged")}
+    core.check_i32([ev])
+    path = os.path.join(run.work, "live.ndjson")
+    core.write_ndjson(path, [ev])
+    rej, r = core.validate("trace/Trace_Live", path, n_events=1, xmx="2g", timeout=600)
+    run.add_tlc(r)
+    import re
+    clauses = sorted(set(re.findall(r'<<"REJECT", 1, "([^"]*)">>', r.out)))
+    per = {x: sum(1 for q in obs["recs"] if q["icao"] == x) for x in obs["judged"] + [obs["silent"]]}
+    run.cov["live_expiry_scenario"] = {
+        "status": "judged", "fed_s": obs["fed_s"], "frames_sent": obs["frames_sent"],
+        "records_printed": len(obs["recs"]), "records_printed_per_address": per,
+        "max_feeder_gap_ms": obs["max_gap_ms"], "table": obs["all"], "rejected_clauses": clauses,
+        "note": "real jet1090 with -x 1 fed over loopback across one 60 s expiration tick; the aircraft that "
+                "goes silent after 5 s is not judged"}
+    for c in clauses:
+        run.report({"clause": c}, {"command": obs["cmd"], "fed_seconds": obs["fed_s"],
+                                   "records_printed_per_address": per, "all": obs["all"],
+                                   "judged_addresses": obs["judged"],
+                                   "property_requires": "an aircraft that was never silent for 60 s keeps one entry "
+                                   "whose count / firstseen / lastseen are those of all its printed records",
+                                   "records": obs["recs"][:400]})
+
+
 def coverage(events, cases):
     kinds, fields, inter, pos = set(), {}, 0, 0
     for ev in events:
@@ -728,6 +880,10 @@ def coverage(events, cases):
 
 def check(run):
     thorough = run.tier == "thorough"
+    live = None
+    if thorough:        # ~70 s of wall time, concurrent with everything else
+        live_ex = cf.ThreadPoolExecutor(max_workers=1)
+        live = live_ex.submit(live_scenario, os.path.join(run.work, "live"))
     short, rnd, hshort = generate(run, thorough)
     cases = short + rnd
     wcases = hshort + rnd[:1500 if thorough else 200]
@@ -805,8 +961,16 @@ def check(run):
         "history/REST part: the driver command `web` mirrors the main loop (update_snapshot, Filters::is_in, "
         "store_history unless history is off) and calls web::icao24/all/track/sensors; 'kept' is Filters::is_in as "
         "evaluated by the code (the filter itself is C11's subject); no TUI is drawn (non-interactive mode)",
-        "history expiry is not bound to the code (inline closure in main(), wall clock): spec only",
+        "history expiry: exact semantics are spec only (inline closure in main(), wall clock); the thorough tier "
+        "runs the real binary with -x 1 across one 60 s tick and judges the two aircraft that were never silent",
     ]
+
+    if live is not None:
+        t_wait = time.time()
+        status, obs = live.result()
+        run.cov["live_wait_s"] = round(time.time() - t_wait, 1)     # wall time the scenario added
+        judge_live(run, status, obs)
+        live_ex.shutdown()
 
     # end-to-end segment: the real jet1090 binary over loopback TCP, judged by Trace_Pipeline for the
     # clauses of Pipeline.tla that restate this property through main.rs's wiring (see _e2e.py)
